@@ -701,6 +701,9 @@ mut("c19-less-unwrap-hoisted", "C19", "location.go",
     "func LocationLess(a, b Location) bool {\n\tif c, ok := a.(Complemented); ok {\n\t\ta = c.Location\n\t}\n\tif c, ok := b.(Complemented); ok {\n\t\tb = c.Location\n\t}\n\treturn locationLessParts(a, b)\n}\n\nfunc locationLessParts(a, b Location) bool {\n\tif ll, ok := a.(locationSlice); ok {\n\t\tfor _, l := range ll.slice() {\n\t\t\tif locationLessParts(l, b) {",
     ["LESS-UNWRAP|gts.LocationLess"], old2="\t\tfor _, l := range ll.slice() {\n\t\t\tif !LocationLess(a, l) {", new2="\t\tfor _, l := range ll.slice() {\n\t\t\tif !locationLessParts(a, l) {")
 
+mut("c08-loc-whole-reverted", "C08", "locator.go", "result, err := pars.Exact(parser).Parse(pars.FromString(s))", "result, err := parser.Parse(pars.FromString(s))", ["LOC-WHOLE|gts.tryLocation"], note="the repaired defect, reintroduced")
+mut("c08-loc-whole-silent-seq-end", "C08", "locator.go", "result, err := pars.Exact(parser).Parse(pars.FromString(s))", "whole := pars.Seq(parser, pars.End).Child(0)\n\tresult, err := whole.Parse(pars.FromString(s))", silent=True)
+
 if __name__ == "__main__":
     here = os.path.dirname(os.path.abspath(__file__))
     ids = [m["id"] for m in M]
